@@ -105,7 +105,7 @@ func NewGoogleProvider(p *ProviderData, opts options.GoogleOptions) (*GoogleProv
 	if opts.ServiceAccountJSON != "" || opts.UseApplicationDefaultCredentials {
 		// Backwards compatibility with `--google-group` option
 		if len(opts.Groups) > 0 {
-			provider.setAllowedGroups(opts.Groups)
+			provider.addAllowedGroups(opts.Groups)
 		}
 
 		provider.setGroupRestriction(opts)
